@@ -118,9 +118,16 @@ def build(shape: Tuple[str, str, int], idx: int, with_message: bool) -> Tuple[st
     holes: List[str] = []
     body = expr
     use_import = False
+    nmul = sum(expr.count(o) for o in "*/")
     for i in range(k + 1):
         kind = (idx + i) % 4
         hn = f"a{i}"
+        if nmul >= 2 and i >= 2:
+            # products of three or more symbolic operands make z3's integer arithmetic answer `unknown`:
+            # with two or more multiplicative operators only the first two operands stay symbolic
+            body = body.replace(f"@{i}", str(i + 1) if i % 2 else hex(i + 1))
+            env[f"@{i}"] = z3.IntVal(i + 1)
+            continue
         if kind == 0:
             rep = f"{{n:{hn}}}"
             key = f"@{i}"
@@ -530,7 +537,7 @@ def main() -> int:
     parts = [("expressions", work, jobs_a), ("capacity+option", work, jobs_b), ("booleans", work_bool, [0]), ("strings-crosshair", work_strings, [0])]
     meta = {
         "functions_encoded": FILES,
-        "bounds": "all expression shapes with <= 3 binary operators from + - * /, flat and with every parenthesisation (quick: all with <= 2 operators, every third with 3), operands rotating over decimal literal / hex literal / earlier constant / imported constant; operand values symbolic >= 0 (unbounded); `/` asserted where dividend >= 0 and divisor > 0; strings: CrossHair, token bodies <= 3 (thorough 5) chars for the escape loop, values <= 3 (thorough 4) printable-ASCII/tab/CR/LF chars for emission",
+        "bounds": "all expression shapes with <= 3 binary operators from + - * /, flat and with every parenthesisation (quick: all with <= 2 operators, every third with 3), operands rotating over decimal literal / hex literal / earlier constant / imported constant; operand values symbolic >= 0 (unbounded; with two or more of * / in a shape only the first two operands are symbolic, the others concrete literals); `/` asserted where dividend >= 0 and divisor > 0; strings: CrossHair, token bodies <= 3 (thorough 5) chars for the escape loop, values <= 3 (thorough 4) printable-ASCII/tab/CR/LF chars for emission",
         "outside_claim": "decimal rendering of the emitted integer (Python str(int)); that C/Go compilers agree with my literal decoder; non-ASCII and other control characters in strings; values >= 2^63 as C/Go literals",
         "explanation": "per path of the real parser: constant's value term == independent precedence-climbing evaluation of the same token list; the same term arrives as array capacity and max_bytes; the literal the real C/Go/Python renderers emit (sentinel-formatted in the same symbolic run) is the constant's own term",
         "evaluations": len(jobs_a) + len(jobs_b) + 2,
